@@ -440,6 +440,10 @@ def sweep_plan():
         # the value of an extra key=value setting (everything up to the next comma) and the maintainer part of the trailer
         ("value", ["x%sy"], [chr(cp) for cp in range(0x21, 0x7F) if chr(cp) != ","] + SWEEP_NON_ASCII),
         ("author", ["A%sB <a@b.c>", "A B <a%sb@c>"], [chr(cp) for cp in range(0x21, 0x7F)] + SWEEP_NON_ASCII),
+        # change lines whose text is a marker of another layer of the format, indented like any change line
+        ("change-marker", ["  pkg (1.0-1) unstable; urgency=low%s", "  -- A B <a@b.c>  Mon, 01 Jan 2024 00:00:00 +0000%s",
+                           "  vim: ts=2%s", "  Local variables:%s", "  # comment%s", "  -----BEGIN PGP SIGNATURE-----%s",
+                           "  Old Changelog:%s", "  $Id: x $%s", "  /* c */%s"], [""]),
     ]
 
 
@@ -459,8 +463,8 @@ def sweep_cases(component):
                     b[5] = [["k", x]]
                 elif name == "author":
                     b[7] = x
-                elif name == "change":
-                    b[6] = [x]
+                elif name in ("change", "change-marker"):
+                    b[6] = ["  * x", x] if name == "change-marker" else [x]
                 else:
                     b[_SWEEP_COL[name]] = x
                 out.append({"lead": 0, "blocks": [b], "seps": []})
